@@ -39,6 +39,12 @@ theorem fadd_zero_right (n e : Int) (h : n.natAbs ≤ 2 ^ 53) :
 theorem fsub_self (n e : Int) (h : n.natAbs ≤ 2 ^ 53) : fsub roundNE (Dy.mk' n e) (Dy.mk' n e) = Dy.zero := by
   rw [fsub, mk'_sub, Int.sub_self, mk'_zero, roundNE_zero]
 
+/-- `-1 * x` in `DD::selfSubtract` is exact on representable operands -/
+theorem fmul_negOne (n e : Int) (h : n.natAbs ≤ 2 ^ 53) : fmul roundNE negOne (Dy.mk' n e) = Dy.mk' (-n) e := by
+  have h1 : negOne = Dy.mk' (-1) 0 := by decide
+  rw [fmul, h1, mk'_mul, roundNE_mk' _ _ (by omega)]
+  congr 1 <;> omega
+
 /-- subtraction when the left operand's exponent is one higher -/
 theorem sub_shift1 (q n k : Int) (hq : q ≠ 0) (hn : n ≠ 0) :
     Dy.sub (Dy.mk' q (k + 1)) (Dy.mk' n k) = Dy.mk' (2 * q - n) k := by
@@ -139,11 +145,11 @@ theorem dd_exact_grid25 (k : Int) {a b c : Pt}
   simp only
   rw [selfMultiply_exact (b.x + -a.x) (c.y + -b.y) k k (by omega) (by omega),
     selfMultiply_exact (b.y + -a.y) (c.x + -b.x) k k (by omega) (by omega)]
-  simp only [mk'_neg, neg_zero']
   have h1 : ((b.x + -a.x) * (c.y + -b.y)).natAbs ≤ 2 ^ 52 :=
     Nat.le_trans (natAbs_mul_le (m := 2 ^ 26) (n := 2 ^ 26) (by omega) (by omega)) (by decide)
   have h2 : ((b.y + -a.y) * (c.x + -b.x)).natAbs ≤ 2 ^ 52 :=
     Nat.le_trans (natAbs_mul_le (m := 2 ^ 26) (n := 2 ^ 26) (by omega) (by omega)) (by decide)
+  simp only [fmul_negOne _ _ (Nat.le_trans h2 (by decide)), fmul_zero_right]
   rw [selfAdd_exact _ _ (k + k) (by omega) (by omega)]
   have hdet : (b.x + -a.x) * (c.y + -b.y) + -((b.y + -a.y) * (c.x + -b.x)) = det a b c := by
     unfold det; ring
